@@ -5,6 +5,11 @@
 From Coq Require Import Arith List Bool Lia.
 Import ListNotations.
 
+(* outcome of the parser: a result, a syntax error (the code raises XPST0003), or fuel exhaustion of the model
+   (proved impossible with the fuel parse uses: expr_total) *)
+Inductive res (A : Type) := Ok (a : A) | Reject | OutOfFuel.
+Arguments Ok {A} a. Arguments Reject {A}. Arguments OutOfFuel {A}.
+
 Section Pratt.
 Variable op : Type.
 Variable lbp : op -> nat.                (* left binding power of the infix role *)
@@ -26,36 +31,40 @@ Fixpoint lin (t : tree) : list tok :=
 Definition root (t : tree) : option op :=
   match t with Bin o _ _ => Some o | Pre o _ => Some o | _ => None end.
 
-Fixpoint expr (fuel rbp : nat) (ts : list tok) : option (tree * list tok) :=
-  match fuel with 0 => None | S f =>
+Fixpoint expr (fuel rbp : nat) (ts : list tok) : res (tree * list tok) :=
+  match fuel with 0 => OutOfFuel | S f =>
     match ts with
     | TAtom n :: r => loop f rbp (Atom n) r
     | TL :: r => match expr f 0 r with
-                 | Some (t, TR :: r') => loop f rbp (Paren t) r'
-                 | _ => None end
+                 | Ok (t, TR :: r') => loop f rbp (Paren t) r'
+                 | Ok _ => Reject
+                 | Reject => Reject
+                 | OutOfFuel => OutOfFuel end
     | TOp o :: r => match nudR o with
                     | Some b => match expr f b r with
-                                | Some (t, r') => loop f rbp (Pre o t) r'
-                                | None => None end
-                    | None => None end
-    | _ => None
+                                | Ok (t, r') => loop f rbp (Pre o t) r'
+                                | Reject => Reject
+                                | OutOfFuel => OutOfFuel end
+                    | None => Reject end
+    | _ => Reject
     end
   end
-with loop (fuel rbp : nat) (left : tree) (ts : list tok) : option (tree * list tok) :=
-  match fuel with 0 => None | S f =>
+with loop (fuel rbp : nat) (left : tree) (ts : list tok) : res (tree * list tok) :=
+  match fuel with 0 => OutOfFuel | S f =>
     match ts with
     | TOp o :: r => if rbp <? lbp o
-                    then (if conflict o (root left) then None
+                    then (if conflict o (root left) then Reject
                           else match expr f (rbpL o) r with
-                               | Some (rt, r') => loop f rbp (Bin o left rt) r'
-                               | None => None end)
-                    else Some (left, ts)
-    | _ => Some (left, ts)
+                               | Ok (rt, r') => loop f rbp (Bin o left rt) r'
+                               | Reject => Reject
+                               | OutOfFuel => OutOfFuel end)
+                    else Ok (left, ts)
+    | _ => Ok (left, ts)
     end
   end.
 
 Definition parse (ts : list tok) : option tree :=
-  match expr (2 * length ts + 2) 0 ts with Some (t, []) => Some t | _ => None end.
+  match expr (2 * length ts + 2) 0 ts with Ok (t, []) => Some t | _ => None end.
 
 (* next token does not continue a loop running at power b *)
 Definition halts (b : nat) (ts : list tok) : Prop :=
@@ -92,7 +101,7 @@ Proof.
   - destruct (nudR o); [|tauto]. destruct H0. split; eauto.
   - destruct H0. split; eauto.
 Qed.
-Lemma loop_halts : forall f b t ts, halts b ts -> loop (S f) b t ts = Some (t, ts).
+Lemma loop_halts : forall f b t ts, halts b ts -> loop (S f) b t ts = Ok (t, ts).
 Proof.
   intros f b t ts H. cbn [loop]. destruct ts as [|[n|o| |] r]; auto.
   cbn in H. destruct (Nat.ltb_spec b (lbp o)); [lia|reflexivity].
@@ -118,8 +127,8 @@ Qed.
    whatever that returns, expr returns *)
 Lemma pratt_cps : forall t b rest res f0,
   img b t -> edge t rest ->
-  (forall f, f >= f0 -> loop f b t rest = Some res) ->
-  forall f, f >= f0 + 2 * size t -> expr f b (lin t ++ rest) = Some res.
+  (forall f, f >= f0 -> loop f b t rest = Ok res) ->
+  forall f, f >= f0 + 2 * size t -> expr f b (lin t ++ rest) = Ok res.
 Proof.
   induction t as [n|t IH|o t IH|o l IHl r IHr]; intros b rest res f0 Himg Hedge Hk f Hf.
   - destruct f as [|f]; [cbn in Hf; lia|]. cbn. apply Hk. cbn in Hf. lia.
@@ -151,7 +160,7 @@ Qed.
 
 Theorem pratt_correct : forall t b rest fuel,
   img b t -> edge t rest -> halts b rest -> fuel >= 2 * size t + 1 ->
-  expr fuel b (lin t ++ rest) = Some (t, rest).
+  expr fuel b (lin t ++ rest) = Ok (t, rest).
 Proof.
   intros t b rest fuel Hi He Hh Hf.
   apply (pratt_cps t b rest (t, rest) 1); auto.
@@ -165,6 +174,43 @@ Proof.
   pose proof (pratt_correct t 0 [] (2 * length (lin t) + 2) Hi (edge_nil t 0 Hi) I) as H.
   rewrite app_nil_r in H. rewrite H; [reflexivity|]. rewrite lin_length. lia.
 Qed.
+
+(* the parser core always terminates: with fuel > 2 * |tokens| neither expr nor loop runs out of fuel, and
+   every successful call of expr consumes at least one token *)
+Lemma expr_loop_total : forall fuel,
+  (forall b ts, 2 * length ts < fuel -> expr fuel b ts <> OutOfFuel /\
+     forall t r, expr fuel b ts = Ok (t, r) -> length r < length ts) /\
+  (forall b l ts, 2 * length ts < fuel -> loop fuel b l ts <> OutOfFuel /\
+     forall t r, loop fuel b l ts = Ok (t, r) -> length r <= length ts).
+Proof.
+  induction fuel as [|f IH]; [split; intros; lia|]. destruct IH as (IHe & IHl). split.
+  - intros b ts Hf. cbn [expr]. destruct ts as [|[n|o| |] r]; cbn [length] in *.
+    + split; [discriminate|intros; discriminate].
+    + destruct (IHl b (Atom n) r ltac:(lia)) as (H1 & H2). split; [exact H1|].
+      intros t r' E. specialize (H2 _ _ E). lia.
+    + destruct (nudR o) as [c|]; [|split; [discriminate|intros; discriminate]].
+      destruct (IHe c r ltac:(lia)) as (H1 & H2).
+      destruct (expr f c r) as [[t' r']| |] eqn:E; [|split; [discriminate|intros; discriminate]|congruence].
+      specialize (H2 _ _ eq_refl). destruct (IHl b (Pre o t') r' ltac:(lia)) as (H3 & H4). split; [exact H3|].
+      intros t r'' E'. specialize (H4 _ _ E'). lia.
+    + destruct (IHe 0 r ltac:(lia)) as (H1 & H2).
+      destruct (expr f 0 r) as [[t' r']| |] eqn:E; [|split; [discriminate|intros; discriminate]|congruence].
+      specialize (H2 _ _ eq_refl).
+      destruct r' as [|[n|o| |] r'']; try (split; [discriminate|intros; discriminate]).
+      cbn [length] in H2. destruct (IHl b (Paren t') r'' ltac:(lia)) as (H3 & H4). split; [exact H3|].
+      intros t r3 E'. specialize (H4 _ _ E'). lia.
+    + split; [discriminate|intros; discriminate].
+  - intros b l ts Hf. cbn [loop]. destruct ts as [|[n|o| |] r]; cbn [length] in *;
+      try (split; [discriminate|intros t r' E; injection E as <- <-; cbn [length]; lia]).
+    destruct (b <? lbp o); [|split; [discriminate|intros t r' E; injection E as <- <-; cbn [length]; lia]].
+    destruct (conflict o (root l)); [split; [discriminate|intros; discriminate]|].
+    destruct (IHe (rbpL o) r ltac:(lia)) as (H1 & H2).
+    destruct (expr f (rbpL o) r) as [[rt r']| |] eqn:E; [|split; [discriminate|intros; discriminate]|congruence].
+    specialize (H2 _ _ eq_refl). destruct (IHl b (Bin o l rt) r' ltac:(lia)) as (H3 & H4). split; [exact H3|].
+    intros t r'' E'. specialize (H4 _ _ E'). lia.
+Qed.
+Theorem expr_total : forall ts, expr (2 * length ts + 2) 0 ts <> OutOfFuel.
+Proof. intros ts. apply (proj1 (expr_loop_total (2 * length ts + 2))). lia. Qed.
 
 (* ------------------------------------------------------------------ *)
 (* The EBNF side: operators have a grammar level (higher = binds tighter) and are left-associative
